@@ -225,7 +225,7 @@ func pngChain(e *Engine, o Outcome) (ok bool, why string, tags []tagCond) {
 		tags = append(tags, t)
 		delete(seen, cur.Key())
 		// length = BE32 at cur-4 .. cur-1
-		l := e.beU32(cur.Sub(formInt(4)))
+		l := o.St.resolve(e.beU32(cur.Sub(formInt(4)))) // with what the path has pinned (Length == 0 …)
 		cur = cur.Add(formInt(12)).Add(l)
 	}
 	if len(seen) > 0 {
@@ -354,6 +354,18 @@ func jpegRun(p *Program, withICC bool) *parserRun {
 		o.Prune = func(c *BoolVal) bool {
 			// identifier byte mismatch → `continue`: not followed (a non-ICC APP2 segment is simply skipped)
 			k := c.Key()
+			if c.Op == "==" && strings.Contains(k, ".Type(") {
+				// further start-of-frame markers share the SOF0/SOF2 arm: the two the property names
+				// stand for the whole case list (keeps the exploration within its path budget)
+				if b, ok := c.B.(*Form); ok {
+					if cv, isC := b.ConstInt(); isC && cv > 0xc2 && cv <= 0xcf && cv != 0xc4 && cv != 0xc8 && cv != 0xcc {
+						return true
+					}
+					if cv, isC := b.ConstInt(); isC && cv == 0xc1 {
+						return true
+					}
+				}
+			}
 			return c.Op == "!=" && strings.HasPrefix(k, "(1*index(.Data(") && !strings.Contains(k, "make#") && strings.Count(k, "index(") == 1 && !strings.HasSuffix(k, " != 0)")
 		}
 		setD := p.Method("meta", "Data", "SetICCProfileData")
@@ -472,7 +484,9 @@ func checkJpegFields(p *Program, r *Report) {
 			if !isC || !strings.Contains(k, ".Type(") {
 				continue
 			}
-			if strings.Contains(k, typeAtom(seg)) && (cv == 0xc0 || cv == 0xc2) {
+			// any start-of-frame marker carries the same header layout (ITU T.81 B.2.2): SOF0..SOF15
+			// without DHT (C4), JPG (C8) and DAC (CC); the property needs SOF0 and SOF2 among them
+			if strings.Contains(k, typeAtom(seg)) && cv >= 0xc0 && cv <= 0xcf && cv != 0xc4 && cv != 0xc8 && cv != 0xcc {
 				foundSOF = true
 				sofSeen[cv] = true
 			}
@@ -738,7 +752,7 @@ func checkJpegScanOn(p *Program, r *Report, pos string) {
 		}
 		sawSOF := false
 		for _, t := range typeOf {
-			if t == 0xc0 || t == 0xc2 {
+			if t >= 0xc0 && t <= 0xcf && t != 0xc4 && t != 0xc8 && t != 0xcc {
 				sawSOF = true
 			}
 		}
